@@ -189,7 +189,16 @@ class CaseSet:
             self.probe.append("culling 0")
             self.mlines.append("let () = out_str \"skip\"")
             self.meta.append({"kind": "hook"})
-        self.probe.append("world %d %s %d" % (slot, path, seed))
+        if slot % 2 == 1:
+            # every second world is constructed from one and the same path, rewritten just before: what a world is depends on the
+            # content of its file at construction, not on the file name or on worlds built from that path earlier in the process
+            shared = os.path.join(self.dir, "shared.wb")
+            self.probe.append("copy %s %s" % (path, shared))
+            self.mlines.append("let () = out_str \"skip\"")
+            self.meta.append({"kind": "hook"})
+            self.probe.append("world %d %s %d" % (slot, shared, seed))
+        else:
+            self.probe.append("world %d %s %d" % (slot, path, seed))
         if ok:
             tape = "no_tape"
             if el.uses_random:
